@@ -30,45 +30,60 @@ func accelFamilies(thorough bool) (jobs []job) {
 	add := func(fam string, pats []Pat, o optSet, pr profile, L int) {
 		jobs = append(jobs, job{fam: fam, pats: pats, opts: o, prof: pr, maxL: L})
 	}
-	for _, o := range []optSet{"", "G", "R"} {
-		L := 4
-		if o == "" {
-			L = 5
-		}
-		add("CORE<=4", core4, o, profP0, 4)
-		add("SEQ k<=2 anchored", seq2, o, profP0, L)
-		add("ALT", altL, o, profP0, L)
-		add("LAND", land, o, profP0, 5)
-		add("ANCH<=4", anch, o, anchProf, 4)
-		add("ANCH<=4", anch, o+"m", anchProf, 4)
+	// narrow, shortcut-directed families first (an internal deadline then only ever cuts breadth)
+	lim := limFamily()
+	for _, o := range []optSet{"", "G", "i", "R"} {
+		add("LIM", lim, o, profCorpus, 2)
 	}
 	altB := altBranchFamily(false)
 	add("ALTB", altB, "", profP0, 4)
 	add("ALTB", altB, "G", profP0, 4)
 	add("ALTB", altB, "i", profP0i, 3)
-	loop3 := loop3Family(false)
-	add("LOOP3", loop3, "", profP0, 5)
 	bump := bumpFamily()
 	add("BUMP", bump, "", profP0, 5)
 	add("BUMP", bump, "G", profP0, 4)
 	add("BUMP", bump, "m", profP6, 4)
-	add("SEQ k<=3", seq3, "", profP0, 4)
-	add("LOOP", loopF, "", profP0, 4)
-	add("LOOK", lookF, "", profP0, 4)
-	add("ALT", altL, "i", profP0i, 4)
-	add("ALT", altL, "iG", profP0i, 4)
-	add("SEQ k<=2 anchored", seq2, "i", profP0i, 4)
-	add("SEQ k<=2 anchored", seq2, "m", profP6, 4)
-	add("CORE<=4", core4, "", profP1, 4)
-	for _, pr := range []profile{profP1, profP2, profP3} {
-		add("SEQ k<=2 anchored", seq2, "", pr, 4)
-		add("ALT", altL, "G", pr, 4)
+	add("LOOP3", loop3Family(false), "", profP0, 5)
+	for _, o := range []optSet{"", "G", "R"} {
+		add("LAND", land, o, profP0, 5)
 	}
 	add("CORPUS", corpus, "", profCorpus, 3)
 	add("CORPUS", corpus, "G", profCorpus, 3)
-	lim := limFamily()
-	for _, o := range []optSet{"", "G", "i", "R"} {
-		add("LIM", lim, o, profCorpus, 2)
+	for _, o := range []optSet{"", "G", "R"} {
+		L := 4
+		if o == "" {
+			L = 5
+		}
+		if thorough || o == "" {
+			add("CORE<=4", core4, o, profP0, 4)
+		} else {
+			add("CORE<=4", core4, o, profP0, 3)
+		}
+		add("SEQ k<=2 anchored", seq2, o, profP0, L)
+		add("ALT", altL, o, profP0, L)
+		add("ANCH<=4", anch, o, anchProf, 4)
+		if thorough || o == "" {
+			add("ANCH<=4", anch, o+"m", anchProf, 4)
+		} else {
+			add("ANCH<=4", anch, o+"m", anchProf, 3)
+		}
+	}
+	if thorough {
+		add("SEQ k<=3", seq3, "", profP0, 4)
+		add("LOOP", loopF, "", profP0, 4)
+		add("LOOK", lookF, "", profP0, 4)
+	} else {
+		add("LOOP", loopF, "", profP0, 3)
+		add("LOOK", lookF, "", profP0, 3)
+	}
+	add("ALT", altL, "i", profP0i, 3)
+	add("ALT", altL, "iG", profP0i, 3)
+	add("SEQ k<=2 anchored", seq2, "i", profP0i, 3)
+	add("SEQ k<=2 anchored", seq2, "m", profP6, 3)
+	add("CORE<=4", core4, "", profP1, 3)
+	for _, pr := range []profile{profP1, profP2, profP3} {
+		add("SEQ k<=2 anchored", seq2, "", pr, 3)
+		add("ALT", altL, "G", pr, 3)
 	}
 	if thorough {
 		add("SEQ k<=3", seq3, "G", profP0, 4)
